@@ -382,6 +382,16 @@ DIRECT_FORMS = [
     "call(mergeWith, [{a => [1]}, {a => [2]}, $c], {})", "call('#operator_and', [$c, $c], {})",
     "call('#operator_->', [let(), $c], {})", "call(takeWhile, [[1], $c], {})", "call(indexWhere, [[1], $c], {})",
     '$c()', '$c(1)', '$c.secret(1)', 'lambda($.secret)($c)',
+    # string arguments that are templates over the receiver, on paths that only run when something fails
+    "$c.assert(false, '{0.secret}')", "$c.assert(false, '{0[secret]}')", "$c.assert(false, '%(secret)s')",
+    "$c.assert($ = null, '{0.__class__.__name__}')", "$c.assert(false, message => '{0._hidden}')",
+    "[$c].select($.assert(false, '{0.secret}'))", "$c.assert(true, '{0.secret}')", "assert($c, false, '{0.secret}')",
+    "'{0.secret}'.replace('x', 'y') + str($c)", "'%s' .replace('%s', str($c))", "[$c].join('{0.secret}')",
+    "'{0.secret}'.join([$c])", "$c.toString('{0.secret}')", "str($c).indexOf('{0.secret}')",
+    "datetime(2020, 1, 1).format('{0.secret}')", "coalesce($c.secret, '{0.secret}')", "switch($c => '{0.secret}')",
+    "[1, 2].orderBy($c)", "[$c, $c].orderBy($)", "[$c, $c].distinct()", "[$c].toDict($)", "{$c => 1}.keys()",
+    "set($c, $c).len()", "$c in [$c]", "[$c].indexOf($c)", "[$c].contains($c)", "max($c, $c)", "[$c, $c].sum()",
+    "$c < $c", "$c = $c", "not $c", "bool($c)", "int($c)", "float($c)", "hex($c)", "abs($c)", "len($c)", "$c.len()",
 ]
 
 
